@@ -36,7 +36,9 @@ Arg == {2, 3}                   \* the argument set of in / containsAll / contai
 PerValue == {"minInclusive", "maxInclusive", "minExclusive", "maxExclusive", "minInclusiveFloat", "maxExclusiveFloat",
              "minLength", "maxLength", "exactLength", "pattern", "in", "inNumbers", "inHalves", "inIntsOnFractions",
              \* "...Fine": the property holds v + 0.00000005 and the argument has seven decimals (2.0000001, 3.0000001)
-             "minInclusiveFine", "maxExclusiveFine"}
+             "minInclusiveFine", "maxExclusiveFine",
+             \* a regular expression that begins with a blank: " a{2,3}$" -- no value (v letters, no blank) matches it
+             "patternLeadingBlank"}
 SetKinds == {"containsAll", "containsSome", "containsAllHalves", "containsSomeHalves"}
 CountKinds == {"minCount", "maxCount", "exactCount"}
 PairKinds == {"lessThanProperty", "lessThanOrEqualsToProperty", "equalsToProperty", "disjointWithProperty"}
@@ -52,6 +54,7 @@ Good(k, v) ==
     [] k = "inHalves" -> v \in Arg   [] k = "inIntsOnFractions" -> FALSE      \* no v + 0.7 is one of 2, 3
     [] k = "minInclusiveFine" -> v >= 3     \* 2.00000005 < 2.0000001 <= 3.00000005
     [] k = "maxExclusiveFine" -> v <= 3     \* 3.00000005 < 3.0000001 < 4.00000005
+    [] k = "patternLeadingBlank" -> FALSE
 
 PairOp(k, a, b) ==
   CASE k = "lessThanProperty" -> a < b [] k = "lessThanOrEqualsToProperty" -> a <= b
